@@ -160,8 +160,9 @@ func TestDebug(t *testing.T) {
 	}
 }
 
-// TestKnown replays every testdata/known/*.json and reports the signature each case produces
-// against the one recorded in the file (development aid, not part of the driver phases).
+// TestKnown replays every testdata/known/*.json: a case whose signature is listed as known must
+// produce it, one whose signature is not (repaired, status fixed) must produce no failure
+// (development aid, not part of the driver phases).
 func TestKnown(t *testing.T) {
 	files, _ := filepath.Glob("testdata/known/*.json")
 	sort.Strings(files)
@@ -181,10 +182,17 @@ func TestKnown(t *testing.T) {
 		if fail := run(doc.Case); fail != nil {
 			got = fail.Sig
 		}
-		status := "ok"
-		if got != doc.Signature {
-			status = "DIFFERENT"
+		// a finding listed as known must reproduce; one that is not (fixed) must be gone
+		want := doc.Signature
+		listed := "known"
+		if !rec.IsKnown(doc.Signature) {
+			want, listed = "<no failure>", "fixed"
 		}
-		t.Logf("%-9s %s: recorded %s, produced %s", status, filepath.Base(f), doc.Signature, got)
+		status := "ok(" + listed + ")"
+		if got != want {
+			status = "DIFFERENT(" + listed + ")"
+			t.Errorf("%s: listed as %s, recorded %s, produced %s", filepath.Base(f), listed, doc.Signature, got)
+		}
+		t.Logf("%-16s %s: recorded %s, produced %s", status, filepath.Base(f), doc.Signature, got)
 	}
 }
